@@ -404,7 +404,7 @@ func indexFirstV6Label(domain string) (idx int) {
 	idx = len(domain) - len(arpaV6Suffix) + 1
 	for labelsNum := 0; labelsNum < net.IPv6len*2 && idx > 0; labelsNum++ {
 		curIdx := idx - len("a.")
-		if curIdx > 1 && domain[curIdx-1] != '.' || fromHexByte(domain[curIdx]) == 0xff {
+		if curIdx < 0 || curIdx > 0 && domain[curIdx-1] != '.' || fromHexByte(domain[curIdx]) == 0xff {
 			break
 		}
 
@@ -450,7 +450,7 @@ func ExtractReversedAddr(domain string) (pref netip.Prefix, err error) {
 		return netip.Prefix{}, ErrNotAReversedSubnet
 	}
 
-	if domLen := len(domain); domLen <= sufLen || domain[domLen-sufLen] == '.' {
+	if domLen := len(domain); domLen < sufLen || domain[domLen-sufLen] == '.' {
 		arpa := domain[indexFirstLabel(domain):]
 
 		return parseSubnet(arpa)
